@@ -329,4 +329,48 @@ theorem save_spec (l : Laser) (p : Path) (h : lower p.suffix ∈ validFormats) :
   simp only [validFormats, List.mem_cons, List.not_mem_nil, or_false] at h
   rcases h with h | h | h <;> simp [save, specFiles, h, Path.withStem] <;> rfl
 
+example : lower (⟨"R", "res", ".NPZ"⟩ : Path).suffix ∈ validFormats := by decide
+
+/-! ## the whole run -/
+
+/-- Never a misplaced file: when the arguments are rejected nothing is written and the run fails;
+otherwise every file the run writes — whatever the command, also when it stops part way — is one of
+the derived outputs (see `outputs_placed` / `outputs_stack` for where those are) or one of its
+per-element text images `<stem>_<element><suffix>` beside it. -/
+theorem run_placed (a : Args) :
+    match parse a with
+    | .error _ => (run a).status = .error ∧ (run a).files = []
+    | .ok outs => ∀ f ∈ (run a).files, ∃ o ∈ outs, placedAt f o := by
+  cases hp : parse a with
+  | error e => simp [run, hp]
+  | ok outs =>
+    simp only
+    have hloop : ∀ cmd, ∀ f ∈ (loop cmd (enum ((a.inputs.map (·.laser)).zip outs)) []).files,
+        ∃ o ∈ outs, placedAt f o := by
+      intro cmd
+      apply loop_placed cmd outs
+      · intro x hx
+        have h1 := (List.of_mem_zip hx).2
+        exact (List.of_mem_zip h1).2
+      · simp
+    unfold run
+    rw [hp]
+    cases hc : a.cmd with
+    | convert cfg els => simpa [hc] using hloop (.convert cfg els)
+    | filter f sel => simpa [hc] using hloop (.filter f sel)
+    | stack o pad =>
+      simp only
+      cases hs : stackLasers o pad (a.inputs.map (·.laser)) with
+      | none => simp
+      | some l =>
+        cases outs with
+        | nil => simp
+        | cons out rest =>
+          simp only
+          cases hsv : save l out with
+          | error e => simp
+          | ok fs =>
+            intro f hf
+            exact ⟨out, by simp, save_placed l out fs hsv f hf⟩
+
 end Pew.Cli
